@@ -166,6 +166,10 @@ def main(argv=None):
         if mode in ("collect", "shrink"):
             shrunk = run_hypothesis(arm, ctx, spec, stats)
             report["shrunk_case"] = jsonable(shrunk) if shrunk is not None else None
+        elif mode == "reduce":
+            from .reduce import reduce_case
+            case, ok = reduce_case(arm, spec["case"], spec["target_bucket"], ctx)
+            report["shrunk_case"] = jsonable(case) if ok else None
         elif mode == "enumerate":
             k, nsh = int(spec["shard"]), int(spec["nshards"])
             for i, case in enumerate(arm.enumerate(ctx)):
